@@ -188,8 +188,13 @@ fn tables(cx: &mut Ctx, src: &sm::Src) {
     }
     // consume_length: exactly one optional modifier
     match src.free_fns("consume_length").into_iter().next() {
-        Some(f) if sm::tsx(&f.block) == "{matchiter.peek(){Some(&(_,c))=>{letc=c.into();ifc=='h'||c=='l'||c=='L'{iter.next().unwrap();}},_=>{},}}" => cx.ok(rule, "consume_length skips at most one of h / l / L"),
-        Some(f) => cx.fail(rule, &format!("{}/length-modifier", rule), &src.loc(f), "consume_length does not skip exactly one optional h / l / L (Python rejects `%lld` as an unsupported format character)"),
+        Some(f) => match consume_length_semantics(f) {
+            Ok(n) => {
+                cx.unit("next characters on which consume_length was interpreted", n);
+                cx.ok(rule, "consume_length skips at most one of h / l / L")
+            }
+            Err(e) => cx.fail(rule, &format!("{}/length-modifier", rule), &src.loc(f), &format!("consume_length does not skip exactly one optional h / l / L (Python rejects `%lld` as an unsupported format character): {}", e)),
+        },
         None => cx.anchor_missing(rule, "consume_length"),
     }
     if t.contains("pubfnformat_char(&self,ch:char)->String{self.format_string_with_precision(ch.to_string(),Some(&CFormatQuantity::Amount(1).into()),)}") {
@@ -292,4 +297,39 @@ fn flag_accumulation(cx: &mut Ctx) {
     } else {
         cx.fail(rule, &format!("{}/accumulate", rule), &src.loc(f), &format!("parse_flags writes the flag set with {:?}: a repeated flag character must keep the flag set (only `|=` / insert do)", writes));
     }
+}
+
+
+/// Interpret `consume_length(iter)` for every next character (all of ASCII, two non-ASCII characters, end of input):
+/// it consumes exactly one character iff that character is h, l or L, and never more than one.
+fn consume_length_semantics(f: &syn::ItemFn) -> Result<usize, String> {
+    use crate::eval::{Machine, V};
+    let pname = f.sig.inputs.first().and_then(|a| if let syn::FnArg::Typed(pt) = a { Some(sm::tsc(&pt.pat)) } else { None }).ok_or("no iterator parameter")?;
+    let mut inputs: Vec<Option<char>> = (0u8..128).map(|b| Some(b as char)).collect();
+    inputs.extend([Some('\u{e9}'), Some('\u{4e2d}'), None]);
+    let n = inputs.len();
+    for next in inputs {
+        // the rest of the input repeats the same character: `%lld`, `%hhd`
+        let consumed = std::cell::Cell::new(0usize);
+        let methods = |recv: &V, m: &str, _args: &[V]| -> Option<V> {
+            let item = |c: char| V::Tuple(vec![V::Int(consumed.get() as i128), V::Char(c as u32)]);
+            match (recv, m) {
+                (V::Enum(r), "peek") if *r == pname => Some(V::Opt(next.map(|c| Box::new(item(c))))),
+                (V::Enum(r), "next") if *r == pname => {
+                    let v = V::Opt(next.map(|c| Box::new(item(c))));
+                    consumed.set(consumed.get() + 1);
+                    Some(v)
+                }
+                (V::Char(c), "into") => Some(V::Char(*c)),
+                _ => None,
+            }
+        };
+        let mut mach = Machine::new(&methods);
+        mach.eval_fn_body(&f.block).map_err(|e| format!("not interpretable ({})", e))?;
+        let want = usize::from(matches!(next, Some('h' | 'l' | 'L')));
+        if consumed.get() != want {
+            return Err(format!("with next character {:?} (repeated) it consumes {} character(s), expected {}", next, consumed.get(), want));
+        }
+    }
+    Ok(n)
 }
